@@ -81,7 +81,7 @@ def handleEffectsExt (op : String) (inp : Json) (impl : Option Json) : R (Option
     let out := match guardedWritesD fs0 p ws with
       | .ok fs => fileJ fs
       | .error e => obj [("error", strJ e)]
-    let outProg := match guardedWritesProg fs0 p ws with
+    let outProg := if !Generated.ENSURE_PATH_READABLE then out else match guardedWritesProg fs0 p ws with
       | .ok fs => fileJ fs
       | .error e => obj [("error", strJ e)]
     let spec ← (match impl with
